@@ -9,6 +9,8 @@ CONSTANTS
   IdleLimit = 0
   MaxFaults = 1000000
   AcceptSurvives = TRUE
+  PipelinedChild = TRUE
+  AsyncDrain = FALSE
 INVARIANTS Track StepOncePerRequestInOrder AckMatches UnknownGetsUnknown AckAfterStep StateIsEffect
 POSTCONDITION TraceAccepted
 CHECK_DEADLOCK FALSE
